@@ -51,7 +51,8 @@ def fn_tags(gen):
 def match_kf_any(fl, unit, kfs):
     ids = [c[0] for c in fl.clauses]
     for kf in kfs:
-        if kf.get("unit") == unit and kf.get("clause") and kf["clause"] in ids and (not kf.get("fn") or kf["fn"] == fl.fn):
+        # the failure must BE the listed obligation (its only named clause), not another obligation whose trace passes it
+        if kf.get("unit") == unit and kf.get("clause") and set(ids) == {kf["clause"]} and (not kf.get("fn") or kf["fn"] == fl.fn):
             return kf
     return None
 
@@ -99,7 +100,7 @@ def match_kf(fl, unit, pid, kfs):
         if kf.get("fn") and kf["fn"] != fl.fn:
             continue
         if kf.get("clause"):
-            if kf["clause"] in ids:
+            if set(ids) == {kf["clause"]}:
                 return kf
             continue
         if kf.get("site"):
@@ -109,6 +110,37 @@ def match_kf(fl, unit, pid, kfs):
                 if " ".join(kf["site"].split()) in " ".join(t.split()):
                     return kf
     return None
+
+
+_SHAPES = None
+
+
+def grown_functions(u, g):
+    """functions of unit u that have more unannotated loops / closures than on the unchanged tree (vf/shapes.json)"""
+    global _SHAPES
+    if _SHAPES is None:
+        try:
+            _SHAPES = json.load(open(os.path.join(VERIF, "vf", "shapes.json")))
+        except Exception:
+            _SHAPES = {}
+    base = _SHAPES.get(u)
+    if base is None:
+        return {}
+    out = {}
+    for rel, fs in g.shapes.items():
+        for key, sh in fs.items():
+            b = base.get(rel, {}).get(key)
+            if b is None:
+                # a function that did not exist: only its own loops / closures matter
+                b = dict(unannotated_loops=0, unannotated_closures=0)
+            why = []
+            if sh["unannotated_loops"] > b["unannotated_loops"]:
+                why.append("%d new loop(s)" % (sh["unannotated_loops"] - b["unannotated_loops"]))
+            if sh["unannotated_closures"] > b["unannotated_closures"]:
+                why.append("%d new closure(s)" % (sh["unannotated_closures"] - b["unannotated_closures"]))
+            if why:
+                out[key.split("@")[0]] = " and ".join(why)
+    return out
 
 
 def describe(fl):
@@ -247,8 +279,16 @@ def main():
                         undecided.append("%s: unstable obligation (fails for some solver seeds only): %s" % (unit.NAME, describe(f2)))
         failed_clause_ids = set()
         kf_clause_ids = set()
+        grown = grown_functions(u, g)
+        if grown:
+            us["functions_with_new_unannotated_loops_or_closures"] = grown
         for fl in confirmed:
             kf = match_kf(fl, u, pid, kfs)
+            if not kf and fl.fn in grown:
+                # tool limit, not a verdict: the function gained a loop / closure that no annotation covers, so the existing
+                # contract cannot be re-established mechanically; the scenario family decides whether there is a violation
+                undecided.append("%s: fn %s has %s without an annotation compared with the unchanged tree; failed obligation not counted as a verdict: %s" % (unit.NAME, fl.fn, grown[fl.fn], describe(fl)))
+                continue
             if kf:
                 known.append((kf, unit.NAME, fl))
                 for c in fl.clauses:
@@ -308,7 +348,7 @@ def main():
                         known.append((kf, "S", dict(obligation="native lattice family: " + h.get("what", "")[:300])))
                 else:
                     fresh.append(h)
-            s_bounded.append(dict(harness="native lattice family %s (replay/src/spaces.rs) seed %d" % (pid, sd), bound=P["bounded_scenarios"], status="pass" if not fresh else "fail", reports=len(hits)))
+            s_bounded.append(dict(harness="native family %s (%s) seed %d" % (pid, "replay/py/c20_scenarios.py on the real oxmpl_py module" if pid == "C20" else "replay/src/spaces.rs", sd), bound=P["bounded_scenarios"], status="pass" if not fresh else "fail", reports=len(hits)))
             if fresh:
                 s_violations.append((sd, fresh))
 
